@@ -118,5 +118,589 @@ theorem free_abs (s : DynamicPool) (h : s.Inv) : s.freeBytes = s.abs.free := by
   obtain ⟨p, ps, hp, ht, hf, _⟩ := inv_top s h
   simp [freeBytes, DPool.free, DPool.topUsed, DPool.top, abs, hp, hf, ht]
 
+
+/-- the invariant with the page check in `Prop` form -/
+theorem inv_iff (s : DynamicPool) :
+    s.Inv ↔ s.topOk ∧ s.high ≤ s.free ∧ (s.undo = false → s.free = s.high) ∧
+      (∀ p ∈ s.pages, DPool.pageWF s.ab s.isPacked p) ∧ (s.isFixed = true → s.pages.length = 1) := by
+  unfold Inv
+  rw [List.all_eq_true]
+  constructor
+  · rintro ⟨a, b, c, d, e⟩; exact ⟨a, b, c, fun p hp => (pageOkB_iff _ _ _).1 (d p hp), e⟩
+  · rintro ⟨a, b, c, d, e⟩; exact ⟨a, b, c, fun p hp => (pageOkB_iff _ _ _).2 (d p hp), e⟩
+
+theorem spanLen_mod (ab : Nat) (bs : List PBlk) (h : ∀ b ∈ bs, b.span % ab = 0) : spanLen bs % ab = 0 := by
+  induction bs with
+  | nil => simp [spanLen]
+  | cons a as ih =>
+    simp only [spanLen]
+    have h1 := h a (List.mem_cons_self ..)
+    have h2 := ih (fun b hb => h b (List.mem_cons_of_mem _ hb))
+    rw [Nat.add_mod, h1, h2]; simp
+
+/-- the model computes the spec's padding -/
+theorem padding_eq (s : DynamicPool) (n : Nat) :
+    (if !s.isPacked && s.ab > 1 then (let rem := n % s.ab; if rem ≠ 0 then s.ab - rem else 0) else 0)
+      = padOf s.isPacked s.ab n := rfl
+
+/-! ### malloc: the five outcomes -/
+theorem malloc_cases (grow : Nat → Nat) (fresh : Nat) (s : DynamicPool) (n : Nat) (m : Mem)
+    (pad : Nat) (hpad : pad = padOf s.isPacked s.ab n) :
+    (s.topPageSize ≤ n ∧ malloc grow fresh s n m = (none, s, m)) ∨
+    (n < s.topPageSize ∧ n + pad ≤ s.topPageSize - s.free ∧
+        malloc grow fresh s n m = ((s.bump n pad).1, (s.bump n pad).2, m)) ∨
+    (n < s.topPageSize ∧ ¬ n + pad ≤ s.topPageSize - s.free ∧ (s.isFixed = true ∨ grow s.topPageSize < n + pad) ∧
+        malloc grow fresh s n m = (none, s, m)) ∨
+    (n < s.topPageSize ∧ ¬ n + pad ≤ s.topPageSize - s.free ∧ s.isFixed = false ∧ n + pad ≤ grow s.topPageSize ∧
+        m.alloc.1 = false ∧ malloc grow fresh s n m = (none, s, m.alloc.2)) ∨
+    (n < s.topPageSize ∧ ¬ n + pad ≤ s.topPageSize - s.free ∧ s.isFixed = false ∧ n + pad ≤ grow s.topPageSize ∧
+        m.alloc.1 = true ∧
+        malloc grow fresh s n m = (((s.expand (grow s.topPageSize) fresh).bump n pad).1,
+                                   ((s.expand (grow s.topPageSize) fresh).bump n pad).2, m.alloc.2)) := by
+  unfold malloc
+  rw [padding_eq, ← hpad]
+  by_cases h1 : n ≥ s.topPageSize
+  · left; exact ⟨by omega, by simp [h1]⟩
+  · right
+    simp only [h1, if_false]
+    by_cases h2 : n + pad > s.topPageSize - s.free
+    · right
+      simp only [h2, if_true]
+      by_cases h3 : (s.isFixed || decide (n + pad > grow s.topPageSize)) = true
+      · left
+        simp only [h3, if_true]
+        refine ⟨by omega, by omega, ?_, by first | rfl | trivial⟩
+        simpa using h3
+      · right
+        simp only [h3]
+        simp only [Bool.or_eq_true, decide_eq_true_eq, not_or, Bool.not_eq_true] at h3
+        cases ha : m.alloc.1
+        · left; exact ⟨by omega, by omega, h3.1, by omega, rfl, by simp⟩
+        · right; exact ⟨by omega, by omega, h3.1, by omega, rfl, by simp⟩
+    · left
+      simp only [h2, if_false]
+      exact ⟨by omega, by omega, by first | rfl | trivial⟩
+
+theorem bump_inv (s : DynamicPool) (n pad : Nat) (p : PPage) (ps : List PPage) (hp : s.pages = p :: ps)
+    (ht : s.topPageSize = p.size) (hf : s.free = spanLen p.blocks)
+    (hall : ∀ q ∈ s.pages, DPool.pageWF s.ab s.isPacked q) (hfix : s.isFixed = true → s.pages.length = 1)
+    (hfit : n + pad ≤ s.topPageSize - s.free)
+    (hpad : s.isPacked = false → 0 < s.ab → (n + pad) % s.ab = 0) : (s.bump n pad).2.Inv := by
+  rw [inv_iff]
+  have hpw := hall p (by rw [hp]; exact List.mem_cons_self ..)
+  obtain ⟨hl, hs, hb, hal⟩ := hpw
+  simp only [bump, hp, pushBlk]
+  refine ⟨?_, by omega, by simp, ?_, by simpa [hp] using hfix⟩
+  · simp only [topOk, spanLen, undoOk]
+    exact ⟨ht, by omega, fun _ => by constructor <;> first | trivial | omega⟩
+  · intro q hq
+    cases hq with
+    | head =>
+      refine ⟨⟨hf, by dsimp only; omega, hl⟩, by simp only [spanLen]; omega, hb, ?_⟩
+      intro hpk hab b hbm
+      cases hbm with
+      | head =>
+        dsimp only
+        have := spanLen_mod s.ab p.blocks (fun b hb => (hal hpk hab b hb).2)
+        exact ⟨by rw [hf]; exact this, hpad hpk hab⟩
+      | tail _ hb' => exact hal hpk hab b hb'
+    | tail _ hq' => exact hall q (by rw [hp]; exact List.mem_cons_of_mem _ hq')
+
+theorem malloc_inv (grow : Nat → Nat) (fresh : Nat) (s : DynamicPool) (n : Nat) (m : Mem) (h : s.Inv) :
+    (malloc grow fresh s n m).2.1.Inv := by
+  obtain ⟨p, ps, hp, ht, hf, hpw, hu⟩ := inv_top s h
+  have h' := (inv_iff s).1 h
+  have hpad : s.isPacked = false → 0 < s.ab → (n + padOf s.isPacked s.ab n) % s.ab = 0 :=
+    fun hpk hab => (span_aligned _ _ n hpk hab).1
+  rcases malloc_cases grow fresh s n m _ rfl with ⟨_, e⟩ | ⟨_, hfit, e⟩ | ⟨_, _, _, e⟩ | ⟨_, _, _, _, _, e⟩ | ⟨_, _, hfx, hg, _, e⟩
+  · rw [e]; exact h
+  · rw [e]; exact bump_inv s n _ p ps hp ht hf h'.2.2.2.1 h'.2.2.2.2 hfit hpad
+  · rw [e]; exact h
+  · rw [e]; exact h
+  · rw [e]
+    refine bump_inv (s.expand (grow s.topPageSize) fresh) n _ _ s.pages rfl rfl rfl ?_ ?_ ?_ hpad
+    · intro q hq
+      simp only [expand] at hq ⊢
+      cases hq with
+      | head => exact ⟨trivial, Nat.zero_le _, by simp, fun _ _ b hb => by cases hb⟩
+      | tail _ hq' => exact h'.2.2.2.1 q hq'
+    · intro hfx'; simp only [expand] at hfx'; rw [hfx] at hfx'; cases hfx'
+    · simp only [expand]; omega
+
+
+theorem abs_top (s : DynamicPool) (p : PPage) (ps : List PPage) (hp : s.pages = p :: ps) : s.abs.top = p := by
+  simp [DPool.top, abs, hp]
+
+theorem malloc_refines (grow : Nat → Nat) (fresh : Nat) (s : DynamicPool) (n : Nat) (m : Mem) (h : s.Inv) :
+    (malloc grow fresh s n m).1 = (DPool.malloc grow fresh s.abs n (!m.alloc.1)).1 ∧
+    (malloc grow fresh s n m).2.1.abs = (DPool.malloc grow fresh s.abs n (!m.alloc.1)).2 := by
+  obtain ⟨p, ps, hp, ht, hf, hpw, hu⟩ := inv_top s h
+  have e0 := abs_top s p ps hp
+  have e1 : s.abs.top.size = s.topPageSize := by rw [e0, ht]
+  have e2 : s.abs.topUsed = s.free := by rw [DPool.topUsed, e0, hf]
+  have e3 : s.abs.pages = p :: ps := hp
+  unfold DPool.malloc; dsimp only
+  rw [e1, e2]
+  rcases malloc_cases grow fresh s n m _ rfl with ⟨c1, e⟩ | ⟨c1, c2, e⟩ | ⟨c1, c2, c3, e⟩ | ⟨c1, c2, c3, c4, c5, e⟩ | ⟨c1, c2, c3, c4, c5, e⟩
+  · rw [e]; simp [c1]
+  · rw [e]
+    have : ¬ n ≥ s.topPageSize := by omega
+    simp only [this, if_false, show s.abs.packed = s.isPacked from rfl, show s.abs.ab = s.ab from rfl, c2, if_true]
+    simp [bump, DPool.pushBlock, abs, hp, pushBlk]
+  · rw [e]
+    have : ¬ n ≥ s.topPageSize := by omega
+    simp only [this, if_false, show s.abs.packed = s.isPacked from rfl, show s.abs.ab = s.ab from rfl, c2,
+      show s.abs.fixed = s.isFixed from rfl]
+    have : (s.isFixed || decide (n + padOf s.isPacked s.ab n > grow s.topPageSize)) = true := by
+      rcases c3 with c3 | c3 <;> simp [c3]
+    simp [this]
+  · rw [e]
+    have : ¬ n ≥ s.topPageSize := by omega
+    simp only [this, if_false, show s.abs.packed = s.isPacked from rfl, show s.abs.ab = s.ab from rfl, c2,
+      show s.abs.fixed = s.isFixed from rfl]
+    have : ¬ (s.isFixed || decide (n + padOf s.isPacked s.ab n > grow s.topPageSize)) = true := by
+      simp [c3]; omega
+    simp [this, c5]
+  · rw [e]
+    have : ¬ n ≥ s.topPageSize := by omega
+    simp only [this, if_false, show s.abs.packed = s.isPacked from rfl, show s.abs.ab = s.ab from rfl, c2,
+      show s.abs.fixed = s.isFixed from rfl]
+    have : ¬ (s.isFixed || decide (n + padOf s.isPacked s.ab n > grow s.topPageSize)) = true := by
+      simp [c3]; omega
+    simp [this, c5, bump, expand, abs, pushBlk]
+
+/-- allocator events of `malloc`: at most one page is requested; NULL leaves the pool (all fields)
+unchanged; a new page is owned iff the call succeeded in getting one -/
+theorem malloc_ledger (grow : Nat → Nat) (fresh : Nat) (s : DynamicPool) (n : Nat) (m : Mem) :
+    ((malloc grow fresh s n m).1 = none → (malloc grow fresh s n m).2.1 = s) ∧
+    (malloc grow fresh s n m).2.2.live + s.owned = m.live + (malloc grow fresh s n m).2.1.owned ∧
+    (malloc grow fresh s n m).2.2.fault = m.fault := by
+  rcases malloc_cases grow fresh s n m _ rfl with ⟨c1, e⟩ | ⟨c1, c2, e⟩ | ⟨c1, c2, c3, e⟩ | ⟨c1, c2, c3, c4, c5, e⟩ | ⟨c1, c2, c3, c4, c5, e⟩
+  · rw [e]; simp
+  · rw [e]; simp [bump, owned, pushBlk]
+    cases s.pages <;> simp
+  · rw [e]; simp
+  · rw [e]; have := Mem.alloc_fst_false m c5; simp [this]
+  · rw [e]; have := Mem.alloc_fst_true m c5
+    simp [bump, expand, owned, pushBlk, this]; omega
+
+/-- a refused page request: NULL, every field unchanged, ledger unchanged -/
+theorem malloc_atomic (grow : Nat → Nat) (fresh : Nat) (s : DynamicPool) (n : Nat) (m : Mem)
+    (h : (malloc grow fresh s n m).2.2.nrefused ≠ m.nrefused) :
+    (malloc grow fresh s n m).1 = none ∧ (malloc grow fresh s n m).2.1 = s ∧
+    (malloc grow fresh s n m).2.2.live = m.live := by
+  rcases malloc_cases grow fresh s n m _ rfl with ⟨c1, e⟩ | ⟨c1, c2, e⟩ | ⟨c1, c2, c3, e⟩ | ⟨c1, c2, c3, c4, c5, e⟩ | ⟨c1, c2, c3, c4, c5, e⟩
+  · rw [e] at h; exact (h rfl).elim
+  · rw [e] at h; exact (h rfl).elim
+  · rw [e] at h; exact (h rfl).elim
+  · rw [e]; exact ⟨rfl, rfl, (Mem.alloc_fst_false m c5).1⟩
+  · rw [e] at h
+    exfalso; apply h
+    unfold Mem.alloc at c5 ⊢
+    split <;> simp_all
+
+
+/-- what a non-NULL result of `malloc` is: an address in the newest page of the new state, at
+`high_ptr`, with the request inside that page's payload -/
+theorem malloc_some (grow : Nat → Nat) (fresh : Nat) (s : DynamicPool) (n : Nat) (m : Mem) (h : s.Inv)
+    (a : Nat × Nat) (ha : (malloc grow fresh s n m).1 = some a) :
+    a.1 = (malloc grow fresh s n m).2.1.pages.length - 1 ∧ a.2 = (malloc grow fresh s n m).2.1.high ∧
+    a.2 + n ≤ (malloc grow fresh s n m).2.1.topBytesLen ∧ (malloc grow fresh s n m).2.1.undo = true := by
+  have hi := malloc_inv grow fresh s n m h
+  obtain ⟨p', ps', hp', ht', hf', hpw', _⟩ := inv_top _ hi
+  have hlen : (malloc grow fresh s n m).2.1.topBytesLen = (malloc grow fresh s n m).2.1.topPageSize := by
+    simp only [topBytesLen, hp', ht']; exact hpw'.2.2.1
+  have hle : (malloc grow fresh s n m).2.1.free ≤ (malloc grow fresh s n m).2.1.topPageSize := by
+    rw [hf', ht']; exact hpw'.2.1
+  rw [hlen]
+  revert ha hle
+  rcases malloc_cases grow fresh s n m _ rfl with ⟨c1, e⟩ | ⟨c1, c2, e⟩ | ⟨c1, c2, c3, e⟩ | ⟨c1, c2, c3, c4, c5, e⟩ | ⟨c1, c2, c3, c4, c5, e⟩
+  all_goals rw [e]
+  · intro ha; cases ha
+  · intro ha hle
+    simp only [bump, Option.some.injEq] at ha hle ⊢
+    subst ha
+    simp only [pushBlk]
+    obtain ⟨p, ps, hp, _⟩ := inv_top s h
+    simp [hp]; omega
+  · intro ha; cases ha
+  · intro ha; cases ha
+  · intro ha hle
+    simp only [bump, expand, Option.some.injEq] at ha hle ⊢
+    subst ha
+    simp [pushBlk]; omega
+
+/-! ### calloc -/
+theorem abs_fillTop (s : DynamicPool) (off n v : Nat) :
+    ({ s with pages := fillTop s.pages off n v } : DynamicPool).abs = s.abs.fillTop off n v := by
+  simp only [abs, DPool.fillTop, fillTop]
+  cases s.pages <;> rfl
+
+theorem fillTop_inv (s : DynamicPool) (off n v : Nat) (h : s.Inv) :
+    ({ s with pages := fillTop s.pages off n v } : DynamicPool).Inv := by
+  rw [inv_iff] at h ⊢
+  obtain ⟨h1, h2, h3, h4, h5⟩ := h
+  unfold topOk at h1
+  cases hp : s.pages with
+  | nil => rw [hp] at h1; exact h1.elim
+  | cons p ps =>
+    rw [hp] at h1 h4 h5
+    simp only [fillTop]
+    refine ⟨by simpa [topOk] using h1, h2, h3, ?_, by simpa using h5⟩
+    intro q hq
+    cases hq with
+    | head =>
+      have := h4 p (List.mem_cons_self ..)
+      exact ⟨this.1, this.2.1, by simpa using this.2.2.1, this.2.2.2⟩
+    | tail _ hq' => exact h4 q (List.mem_cons_of_mem _ hq')
+
+theorem calloc_refines (grow : Nat → Nat) (fresh : Nat) (s : DynamicPool) (c k : Nat) (m : Mem) (h : s.Inv)
+    (hck : c * k < sizeMod) :
+    (calloc grow fresh s c k m).1 = (DPool.calloc grow fresh s.abs c k (!m.alloc.1)).1 ∧
+    (calloc grow fresh s c k m).2.1.abs = (DPool.calloc grow fresh s.abs c k (!m.alloc.1)).2 := by
+  have hr := malloc_refines grow fresh s (c * k) m h
+  have hmod : c * k % sizeMod = c * k := Nat.mod_eq_of_lt hck
+  unfold calloc DPool.calloc; dsimp only
+  rw [hmod, ← hr.1, ← hr.2]
+  cases hm : (malloc grow fresh s (c * k) m).1 with
+  | none => simp
+  | some a => simp [abs_fillTop]
+
+theorem calloc_inv (grow : Nat → Nat) (fresh : Nat) (s : DynamicPool) (c k : Nat) (m : Mem) (h : s.Inv) :
+    (calloc grow fresh s c k m).2.1.Inv := by
+  have hi := malloc_inv grow fresh s (c * k % sizeMod) m h
+  unfold calloc; dsimp only
+  cases hm : (malloc grow fresh s (c * k % sizeMod) m).1 with
+  | none => simpa using hi
+  | some a => simpa using fillTop_inv _ _ _ _ hi
+
+/-- same allocator events as `malloc`; the `memset` stays inside the newest page -/
+theorem calloc_ledger (grow : Nat → Nat) (fresh : Nat) (s : DynamicPool) (c k : Nat) (m : Mem) (h : s.Inv) :
+    ((calloc grow fresh s c k m).1 = none → (calloc grow fresh s c k m).2.1 = s) ∧
+    (calloc grow fresh s c k m).2.2.live + s.owned = m.live + (calloc grow fresh s c k m).2.1.owned ∧
+    (calloc grow fresh s c k m).2.2.fault = m.fault := by
+  have hl := malloc_ledger grow fresh s (c * k % sizeMod) m
+  unfold calloc; dsimp only
+  cases hm : (malloc grow fresh s (c * k % sizeMod) m).1 with
+  | none => simp only [hm] at hl ⊢; exact ⟨fun _ => hl.1 trivial, hl.2⟩
+  | some a =>
+    have hs := malloc_some grow fresh s _ m h a hm
+    simp only [hs.2.2.1, decide_true, Mem.check_true]
+    refine ⟨fun hn => by simp at hn, ?_, hl.2.2⟩
+    have : ({ (malloc grow fresh s (c * k % sizeMod) m).2.1 with
+              pages := fillTop (malloc grow fresh s (c * k % sizeMod) m).2.1.pages a.2 (c * k % sizeMod) 0 } : DynamicPool).owned
+        = (malloc grow fresh s (c * k % sizeMod) m).2.1.owned := by
+      simp only [owned, fillTop]; cases (malloc grow fresh s (c * k % sizeMod) m).2.1.pages <;> rfl
+    rw [this]; exact hl.2.1
+
+
+theorem calloc_atomic (grow : Nat → Nat) (fresh : Nat) (s : DynamicPool) (c k : Nat) (m : Mem)
+    (h : (calloc grow fresh s c k m).2.2.nrefused ≠ m.nrefused) :
+    (calloc grow fresh s c k m).1 = none ∧ (calloc grow fresh s c k m).2.1 = s ∧
+    (calloc grow fresh s c k m).2.2.live = m.live := by
+  have ha := malloc_atomic grow fresh s (c * k % sizeMod) m
+  unfold calloc at h ⊢; dsimp only at h ⊢
+  cases hm : (malloc grow fresh s (c * k % sizeMod) m).1 with
+  | none =>
+    simp only [hm] at h ⊢
+    have := ha h
+    exact ⟨by first | rfl | trivial, this.2.1, this.2.2⟩
+  | some a =>
+    simp only [hm] at h
+    have h' : (malloc grow fresh s (c * k % sizeMod) m).2.2.nrefused ≠ m.nrefused := by
+      intro e; apply h; rw [← e]; unfold Mem.check; split <;> rfl
+    have := (ha h').1
+    rw [hm] at this; cases this
+
+/-! ### free -/
+theorem release_refines (s : DynamicPool) (p : Option (Nat × Nat)) (h : s.Inv) :
+    (s.release p).abs = s.abs.release p := by
+  obtain ⟨pg, ps, hp, ht, hf, hpw, hu⟩ := inv_top s h
+  have hfree := h.2.2.1
+  unfold release DPool.release
+  simp only [show s.abs.pages = s.pages from rfl, show s.abs.undo = s.undo from rfl, hp, List.length_cons,
+    Nat.add_sub_cancel]
+  cases hun : s.undo
+  · by_cases hq : p = some (ps.length, s.high)
+    · simp [hq, abs, hun, hp]
+    · simp [hq]
+  · have hu' := hu hun
+    unfold undoOk at hu'
+    cases hb : pg.blocks with
+    | nil => rw [hb] at hu'; exact hu'.elim
+    | cons b rest =>
+      simp only [hb] at hu'
+      cases p with
+      | none => simp
+      | some a =>
+        simp only [Option.some.injEq, ← hu'.1]
+        by_cases ha : a = (ps.length, b.off)
+        · simp [ha, abs, hb]
+        · simp [ha, hb]
+
+theorem release_inv (s : DynamicPool) (p : Option (Nat × Nat)) (h : s.Inv) : (s.release p).Inv := by
+  obtain ⟨pg, ps, hp, ht, hf, hpw, hu⟩ := inv_top s h
+  have h' := (inv_iff s).1 h
+  obtain ⟨_, h2, h3, h4, h5⟩ := h'
+  unfold release
+  by_cases hq : p = some (s.pages.length - 1, s.high)
+  · simp only [hq, if_true]
+    rw [inv_iff]
+    cases hun : s.undo
+    · have := h3 hun
+      simp only [Bool.false_eq_true, if_false]
+      refine ⟨?_, Nat.le_refl _, by intros; first | rfl | trivial, h4, h5⟩
+      simp only [topOk, hp]
+      exact ⟨ht, by omega, fun hx => by cases hx⟩
+    · have hu' := hu hun
+      unfold undoOk at hu'
+      cases hb : pg.blocks with
+      | nil => rw [hb] at hu'; exact hu'.elim
+      | cons b rest =>
+        simp only [hb] at hu'
+        obtain ⟨hl, hs, hbl, hal⟩ := hpw
+        rw [hb] at hl hs hal
+        simp only [DPool.layout] at hl
+        simp only [spanLen] at hs
+        simp only [if_true, hp, hb, List.tail_cons]
+        refine ⟨?_, Nat.le_refl _, by intros; first | rfl | trivial, ?_, by simpa [hp] using h5⟩
+        · simp only [topOk]
+          exact ⟨ht, by omega, fun hx => by cases hx⟩
+        · intro q hq'
+          cases hq' with
+          | head => exact ⟨hl.2.2, by dsimp only; omega, hbl, fun a1 a2 b' hb' => hal a1 a2 b' (List.mem_cons_of_mem _ hb')⟩
+          | tail _ hq'' => exact h4 q (by rw [hp]; exact List.mem_cons_of_mem _ hq'')
+  · simp only [hq, if_false]; exact h
+
+/-- `free` of anything but the newest page's `high_ptr`: every field is unchanged -/
+theorem release_inert (s : DynamicPool) (p : Option (Nat × Nat)) (hp : p ≠ some (s.pages.length - 1, s.high)) :
+    s.release p = s := by
+  unfold release; simp [hp]
+
+/-! ### reset, destroy -/
+theorem free_live (m : Mem) (h : 0 < m.live) : m.free.live = m.live - 1 ∧ m.free.fault = m.fault := by
+  unfold Mem.free
+  have : ¬ m.live = 0 := by omega
+  simp [this]
+
+theorem resetLoop_spec (p : PPage) (ps : List PPage) (m : Mem) :
+    (resetLoop (p :: ps) m).1 = (p :: ps).getLast? ∧
+    (ps.length ≤ m.live → (resetLoop (p :: ps) m).2.live + ps.length = m.live ∧ (resetLoop (p :: ps) m).2.fault = m.fault) := by
+  induction ps generalizing p m with
+  | nil => simp [resetLoop]
+  | cons q rest ih =>
+    simp only [resetLoop, List.getLast?_cons_cons, List.length_cons]
+    refine ⟨(ih q m.free).1, ?_⟩
+    intro hl
+    have hf := free_live m (by omega)
+    have := (ih q m.free).2 (by rw [hf.1]; omega)
+    rw [hf.1, hf.2] at this
+    exact ⟨by omega, this.2⟩
+
+theorem reset_refines (s : DynamicPool) (m : Mem) (h : s.Inv) : (s.reset m).1.abs = s.abs.reset := by
+  obtain ⟨pg, ps, hp, _⟩ := inv_top s h
+  have := (resetLoop_spec pg ps m).1
+  unfold reset DPool.reset; dsimp only
+  simp only [show s.abs.pages = s.pages from rfl, hp, this]
+  cases hl : (pg :: ps).getLast? with
+  | none => simp at hl
+  | some q => simp [abs]
+
+theorem reset_inv (s : DynamicPool) (m : Mem) (h : s.Inv) : (s.reset m).1.Inv := by
+  obtain ⟨pg, ps, hp, _⟩ := inv_top s h
+  have h4 := ((inv_iff s).1 h).2.2.2.1
+  have := (resetLoop_spec pg ps m).1
+  unfold reset; dsimp only
+  simp only [hp, this]
+  cases hl : (pg :: ps).getLast? with
+  | none => simp at hl
+  | some q =>
+    have hq : q ∈ s.pages := by rw [hp]; exact List.mem_of_getLast? hl
+    have hw := h4 q hq
+    rw [inv_iff]
+    refine ⟨by simp [topOk, spanLen], Nat.le_refl _, fun _ => rfl, ?_, fun _ => rfl⟩
+    intro r hr
+    simp only [List.mem_singleton] at hr
+    subst hr
+    exact ⟨trivial, Nat.zero_le _, hw.2.2.1, fun _ _ b hb => by cases hb⟩
+
+/-- reset keeps exactly one page, the oldest, and releases the others: one `mem_free` each -/
+theorem reset_ledger (s : DynamicPool) (m : Mem) (h : s.Inv) (hl : s.owned ≤ m.live) :
+    (s.reset m).1.pages = [{ (s.pages.getLast (by obtain ⟨_, _, hp, _⟩ := inv_top s h; simp [hp])) with blocks := [] }] ∧
+    (s.reset m).2.live + s.owned = m.live + (s.reset m).1.owned ∧ (s.reset m).2.fault = m.fault := by
+  obtain ⟨pg, ps, hp, _⟩ := inv_top s h
+  have hs := resetLoop_spec pg ps m
+  simp only [owned, hp, List.length_cons] at hl
+  have hs2 := hs.2 (by omega)
+  unfold reset; dsimp only
+  simp only [hp, hs.1, owned, List.length_cons]
+  cases hg : (pg :: ps).getLast? with
+  | none => simp at hg
+  | some q =>
+    have : (pg :: ps).getLast (by simp) = q := by
+      rw [List.getLast?_eq_some_getLast (by simp)] at hg; exact Option.some.inj hg
+    simp only [this, List.length_singleton]
+    exact ⟨by first | rfl | trivial, by omega, hs2.2⟩
+
+theorem freePages_spec (ps : List PPage) (m : Mem) (hl : ps.length ≤ m.live) :
+    (freePages ps m).live + ps.length = m.live ∧ (freePages ps m).fault = m.fault := by
+  induction ps generalizing m with
+  | nil => simp [freePages]
+  | cons p rest ih =>
+    simp only [freePages, List.length_cons] at hl ⊢
+    have hf := free_live m (by omega)
+    have := ih m.free (by rw [hf.1]; omega)
+    rw [hf.1, hf.2] at this
+    exact ⟨by omega, this.2⟩
+
+/-- destroy releases every page and the pool struct, exactly once each -/
+theorem destroy_ledger (s : DynamicPool) (m : Mem) (h : s.Inv) (hl : s.owned ≤ m.live) :
+    (s.destroy m).live + s.owned = m.live ∧ (s.destroy m).fault = m.fault := by
+  obtain ⟨pg, ps, hp, _⟩ := inv_top s h
+  simp only [owned] at hl ⊢
+  unfold destroy; dsimp only
+  have hne : (s.pages != []) = true := by simp [hp]
+  rw [hne, Mem.check_true]
+  have hf := freePages_spec s.pages m (by omega)
+  have hf2 := free_live (freePages s.pages m) (by omega)
+  rw [hf2.1, hf2.2]
+  exact ⟨by omega, hf.2⟩
+
+/-! ### new -/
+theorem new_ok (size : Nat) (fixed packed : Bool) (ab fresh : Nat) (m m' : Mem) (s : DynamicPool)
+    (h : new size fixed packed ab fresh m = (.ok, some s, m')) :
+    s.Inv ∧ s.abs = DPool.init size fixed packed ab (List.replicate size fresh) ∧ m'.live = m.live + s.owned ∧
+    m'.fault = m.fault := by
+  unfold new at h; dsimp only at h
+  cases h1 : m.alloc.1
+  · simp [h1] at h
+  · cases h2 : m.alloc.2.alloc.1
+    · simp [h1, h2] at h
+    · simp only [h1, h2, Bool.not_true, Bool.false_eq_true, if_false, Prod.mk.injEq, Option.some.injEq, true_and] at h
+      obtain ⟨hs, hm⟩ := h
+      subst hs
+      have e1 := Mem.alloc_fst_true m h1
+      have e2 := Mem.alloc_fst_true m.alloc.2 h2
+      refine ⟨?_, rfl, ?_, ?_⟩
+      · rw [inv_iff]
+        refine ⟨by simp [topOk, spanLen], Nat.le_refl _, fun _ => rfl, ?_, fun _ => rfl⟩
+        intro q hq
+        simp only [List.mem_singleton] at hq
+        subst hq
+        exact ⟨trivial, Nat.zero_le _, by simp, fun _ _ b hb => by cases hb⟩
+      · rw [← hm, e2.1, e1.1]; simp [owned]
+      · rw [← hm, e2.2.1, e1.2.1]
+
+/-- a refused constructor: no object, ledger balanced -/
+theorem new_atomic (size : Nat) (fixed packed : Bool) (ab fresh : Nat) (m : Mem) :
+    ((new size fixed packed ab fresh m).1 = .ok ∨ (new size fixed packed ab fresh m).1 = .errAlloc) ∧
+    ((new size fixed packed ab fresh m).1 = .errAlloc →
+      (new size fixed packed ab fresh m).2.1 = none ∧ (new size fixed packed ab fresh m).2.2.live = m.live ∧
+      (new size fixed packed ab fresh m).2.2.fault = m.fault) := by
+  unfold new; dsimp only
+  cases h1 : m.alloc.1 <;> simp only [Bool.not_false, Bool.not_true, if_true]
+  · have := Mem.alloc_fst_false m h1
+    simp [this]
+  · have e1 := Mem.alloc_fst_true m h1
+    cases h2 : m.alloc.2.alloc.1 <;> simp only [Bool.not_false, Bool.not_true, if_true]
+    · have e2 := Mem.alloc_fst_false m.alloc.2 h2
+      simp [Mem.free, e1, e2]
+    · simp
+
+/-! ### user writes -/
+theorem write_refines (s : DynamicPool) (off n v : Nat) (m : Mem) :
+    (s.write off n v m).1.abs = s.abs.write off n v := abs_fillTop s off n v
+theorem write_inv (s : DynamicPool) (off n v : Nat) (m : Mem) (h : s.Inv) : (s.write off n v m).1.Inv :=
+  fillTop_inv s off n v h
+theorem write_nofault (s : DynamicPool) (off n v : Nat) (m : Mem) (h : s.Inv) (hb : off + n ≤ s.topPageSize) :
+    (s.write off n v m).2 = m := by
+  obtain ⟨pg, ps, hp, ht, _, hpw, _⟩ := inv_top s h
+  have : s.topBytesLen = s.topPageSize := by simp only [topBytesLen, hp, ht]; exact hpw.2.2.1
+  simp [write, this, hb]
+
+
+/-! ### the ghost fields never influence the C-visible part
+
+`erase` forgets the ghost fields (live-block lists, roll-back flag).  Every operation commutes with
+it and returns the same pointer and the same allocator state, i.e. the control flow and all C
+fields are computed from C fields only. -/
+def eraseP (p : PPage) : PPage := { p with blocks := [] }
+def erase (s : DynamicPool) : DynamicPool := { s with pages := s.pages.map eraseP, undo := false }
+
+theorem map_eraseP_idem (l : List PPage) : (l.map eraseP).map eraseP = l.map eraseP := by
+  rw [List.map_map]; apply List.map_congr_left; intro a _; rfl
+
+theorem erase_erase (s : DynamicPool) : s.erase.erase = s.erase := by
+  simp only [erase, map_eraseP_idem]
+
+theorem bump_erase (s : DynamicPool) (n pad : Nat) :
+    (s.bump n pad).1 = (s.erase.bump n pad).1 ∧ (s.bump n pad).2.erase = (s.erase.bump n pad).2.erase := by
+  simp only [bump, erase, List.length_map, pushBlk]
+  cases s.pages <;> simp [eraseP]
+
+theorem malloc_erase (grow : Nat → Nat) (fresh : Nat) (s : DynamicPool) (n : Nat) (m : Mem) :
+    (malloc grow fresh s n m).1 = (malloc grow fresh s.erase n m).1 ∧
+    (malloc grow fresh s n m).2.1.erase = (malloc grow fresh s.erase n m).2.1.erase ∧
+    (malloc grow fresh s n m).2.2 = (malloc grow fresh s.erase n m).2.2 := by
+  have hb := bump_erase s n (padOf s.isPacked s.ab n)
+  have hb2 := bump_erase (s.expand (grow s.topPageSize) fresh) n (padOf s.isPacked s.ab n)
+  have he : (s.expand (grow s.topPageSize) fresh).erase = (s.erase.expand (grow s.topPageSize) fresh).erase := by
+    simp [expand, erase, eraseP]
+  have hee := erase_erase s
+  rw [he] at hb2
+  have hb3 := bump_erase (s.erase.expand (grow s.topPageSize) fresh) n (padOf s.isPacked s.ab n)
+  unfold malloc
+  rw [padding_eq, padding_eq]
+  simp only [show s.erase.topPageSize = s.topPageSize from rfl, show s.erase.isPacked = s.isPacked from rfl,
+    show s.erase.ab = s.ab from rfl, show s.erase.free = s.free from rfl, show s.erase.isFixed = s.isFixed from rfl]
+  by_cases h1 : n ≥ s.topPageSize
+  · simp [h1, hee]
+  · simp only [h1, if_false]
+    by_cases h2 : n + padOf s.isPacked s.ab n > s.topPageSize - s.free
+    · simp only [h2, if_true]
+      by_cases h3 : (s.isFixed || decide (n + padOf s.isPacked s.ab n > grow s.topPageSize)) = true
+      · simp [h3, hee]
+      · simp only [h3]
+        cases ha : m.alloc.1
+        · simp [hee]
+        · simp only [Bool.not_true, Bool.false_eq_true, if_false]
+          exact ⟨by rw [hb2.1, hb3.1], by rw [hb2.2, hb3.2], by first | rfl | trivial⟩
+    · simp only [h2, if_false]
+      exact ⟨hb.1, hb.2, by first | rfl | trivial⟩
+
+theorem release_erase (s : DynamicPool) (p : Option (Nat × Nat)) : (s.release p).erase = (s.erase.release p).erase := by
+  unfold release
+  simp only [show s.erase.high = s.high from rfl, show s.erase.pages.length = s.pages.length by simp [erase]]
+  by_cases hq : p = some (s.pages.length - 1, s.high)
+  · simp only [hq, if_true]
+    simp only [erase, Bool.false_eq_true, if_false, map_eraseP_idem]
+    cases s.undo
+    · simp
+    · cases s.pages with
+      | nil => rfl
+      | cons pg ps => simp [eraseP]
+  · simp only [hq, if_false]
+    exact (erase_erase s).symm
+
+theorem resetLoop_erase (ps : List PPage) (m : Mem) :
+    (resetLoop (ps.map eraseP) m).1 = (resetLoop ps m).1.map eraseP ∧ (resetLoop (ps.map eraseP) m).2 = (resetLoop ps m).2 := by
+  induction ps generalizing m with
+  | nil => simp [resetLoop]
+  | cons p rest ih =>
+    cases rest with
+    | nil => simp [resetLoop]
+    | cons q r => simpa [resetLoop] using ih m.free
+
+theorem reset_erase (s : DynamicPool) (m : Mem) :
+    (s.reset m).1.erase = (s.erase.reset m).1.erase ∧ (s.reset m).2 = (s.erase.reset m).2 := by
+  have := resetLoop_erase s.pages m
+  unfold reset; dsimp only
+  simp only [show s.erase.pages = s.pages.map eraseP from rfl, this]
+  cases (resetLoop s.pages m).1 with
+  | none =>
+    simp only [Option.map_none]
+    exact ⟨(erase_erase s).symm, trivial⟩
+  | some q => simp [erase, eraseP]
+
 end DynamicPool
 end CC
